@@ -207,6 +207,19 @@ def h_forward(X, tname, max_records):
                 ar.append(dnsref.RR(names[0] if names else qname, 1, 1, 300, (("raw", "rdata", [192, 0, 2, 1]),)))
             else:
                 ar.append(dnsref.RR(names[0] if names else qname, 1, 1, X.bv("r2.ttl", 32), (("raw", "rdata", list(X.bytes("r2.addr", 4))),)))
+        if nrec >= 3:
+            # twin: a second answer of the same type whose rdata names repeat the first record's, so the encoder
+            # compresses them to pointers *into the first record's rdata* (offsets that move when mitmproxy
+            # expands names in front of them); its data fields are fixed values
+            tw = []
+            for f in fields:
+                if f[0] == "name":
+                    tw.append(f)
+                elif f[0] == "u":
+                    tw.append(("u", f[1], 7, f[3]))
+                else:
+                    tw.append(("raw", f[1], [7] * len(f[2]) if tname != "TXT" else [len(f[2]) - 1] + [0x62] * (len(f[2]) - 1)))
+            an.append(dnsref.RR(qname, rtype, 1, 300, tuple(tw)))
         reply = dnsref.Msg(0x1234, 0x8180, [dnsref.Q(qname, rtype, 1)], an, [], ar)
         seen = []
 
@@ -239,6 +252,8 @@ def h_forward(X, tname, max_records):
         X.reach("reply-forwarded")
         if nrec >= 2:
             X.reach("two-records")
+        if nrec >= 3:
+            X.reach("twin-record")
         if owner_c:
             X.reach("owner-compressed")
         if rdata_c != "uncompressed":
@@ -277,10 +292,10 @@ def obligations(tier):
     obs = [Symx("fwd-header", h_header, bounds="query and reply with 1 question, no records: id, all 16 flag bits of both messages, qtype, qclass symbolic; UDP and TCP",
                 encoded=ENCODED[:7], must_reach=["both-forwarded"], stubs=STUBS + ["DNSLayer.flows -> SymKeyDict"], parallel_depth=3, budget_s=1200)]
     for t in TYPES:
-        obs.append(Symx(f"fwd-{t}", (lambda tn: lambda X: h_forward(X, tn, 2))(t),
+        obs.append(Symx(f"fwd-{t}", (lambda tn: lambda X: h_forward(X, tn, 3))(t),
                         bounds=f"UDP and TCP; question name from {len(QNAMES)} names (ASCII, IDN); reply with 1 {t} answer (+ optional companion A record in the additional section, owner compressed "
-                               "against the first record's rdata name); owner compressed or not; rdata names compressed / uncompressed / mixed; opaque rdata octets, TTL (non-scanned types), "
+                               "against the first record's rdata name; + optional second {t} answer whose rdata names are pointers into the first record's rdata); owner compressed or not; rdata names compressed / uncompressed / mixed; opaque rdata octets, TTL (non-scanned types), "
                                "MX preference, SRV port, SOA serial (either half) fully symbolic; TXT as 1-2 character-strings of 1-3 symbolic octets or one 192-octet string",
-                        encoded=ENCODED, must_reach=["query-forwarded", "reply-forwarded", "two-records", "owner-compressed"] + (["rdata-compressed"] if TYPES[t] in dnsref.LAYOUT else []),
+                        encoded=ENCODED, must_reach=["query-forwarded", "reply-forwarded", "two-records", "twin-record", "owner-compressed"] + (["rdata-compressed"] if TYPES[t] in dnsref.LAYOUT else []),
                         stubs=STUBS, parallel_depth=3 if t in ("TXT", "MX", "SOA", "SRV") else 0, budget_s=1200 if q else 3000))
     return obs
